@@ -61,6 +61,8 @@ def run_case(tier, seed, index, spec=None):
         ts = TP.common_types(rng, depth=2, max_numel=9, max_total=200, allow_zero=(index % 40 == 7))
         if any(T[0] != 'atom' for T in ts) or len(ts) >= 2 and rng.random() < 0.3:
             break
+    if index % 40 == 27:
+        ts = TP.zero_summand_types(rng)
     vals = [0.0, 1.0, -1.5, 2.5, 0.5, 3.0, 7.0, -0.25, 1.8]
     sp_ = 0.9 if index % 5 else 0.5
     p1 = TP.gen_pattern(rng, ts, lambda: rng.choice(vals), rng.choice([0.0, 0.0, 1.0, 2.5]), expand_p=0.0, structure_p=sp_, share_p=0.4)
